@@ -216,9 +216,22 @@ void Stats::processMsg(int sockfd) {
   }
   root["body"] = body;
   std::string ret = root.toStyledString();
-  if (Util::writeFull(sockfd, ret.c_str(), strlen(ret.c_str())) < 0) {
-    OLOG << "Stats server error: writing to socket: "
-         << ::strerror_r(errno, err_buf.data(), err_buf.size());
+  // The client may already have disconnected: MSG_NOSIGNAL so that replying
+  // to it fails with EPIPE instead of killing oomd with SIGPIPE.
+  const char* out = ret.c_str();
+  size_t left = ret.size();
+  while (left > 0) {
+    ssize_t n = ::send(sockfd, out, left, MSG_NOSIGNAL);
+    if (n < 0 && errno == EINTR) {
+      continue;
+    }
+    if (n <= 0) {
+      OLOG << "Stats server error: writing to socket: "
+           << ::strerror_r(errno, err_buf.data(), err_buf.size());
+      break;
+    }
+    out += n;
+    left -= n;
   }
   std::unique_lock<std::mutex> lock(thread_mutex_);
   thread_count_--;
